@@ -347,7 +347,7 @@ func (r *writerRun) onOp(ci int, op *xport.Op) {
 
 func (r *writerRun) frameItem(ci int, wc *wconn, f wire.Frame) Ev {
 	it := Ev{"t": "F", "c": ci, "op": f.Op, "fin": f.Fin, "r1": f.R1, "r2": f.R2, "r3": f.R3, "mk": f.Masked,
-		"len": len(f.Payload), "lk": "n", "min": f.Minimal, "key": -1, "m": -1, "off": 0, "zm": -1, "zlen": 0, "code": -1}
+		"len": len(f.Payload), "lk": "n", "min": f.Minimal, "key": -1, "m": -1, "off": 0, "zm": -1, "zlen": 0, "code": -1, "zlv": []int{}}
 	if f.Masked {
 		it["key"] = r.mask.offsetOf(f.Key)
 	}
@@ -389,6 +389,17 @@ func (r *writerRun) frameItem(ci int, wc *wconn, f wire.Frame) Ev {
 				it["zm"] = mid
 			}
 			it["zlen"] = len(plain)
+			// which compression levels reproduce exactly these bytes for a single
+			// Write of the whole message (empty: not attributable, e.g. chunked writes)
+			lv := []int{}
+			if err == nil && len(plain) > 0 && len(plain) <= 1<<17 {
+				for l := -2; l <= 9; l++ {
+					if c, e := wire.DeflateMsg(plain, fmt.Sprintf("std%d", l)); e == nil && bytes.Equal(c, wc.zbuf) {
+						lv = append(lv, l)
+					}
+				}
+			}
+			it["zlv"] = lv
 			wc.inZ = false
 			wc.afterFin(f)
 		}
